@@ -12,6 +12,17 @@ import (
 // succeeds and yields the state the uninterrupted recovery would have produced.
 func H_C10_Recovery() {
 	vrt.RandPromoteBudget(0)
+	// os.RemoveAll (used by the recovery to clear the WAL directory) removes entries in the order the file
+	// system lists them, which is not specified: both directions are explored (natively: a tmpfs directory
+	// lists newest first, the default temporary directory usually does not)
+	kind := vrt.Choose("image", 4)
+	listing := 0
+	if kind == 3 || vrt.Thorough() {
+		// (quick tier: only for the image with two WAL files, where the order is known to matter)
+		listing = vrt.Choose("listing", 2)
+	}
+	vrt.ListNewestFirst(listing == 1)
+	defer vrt.ListNewestFirst(false)
 	h := vNewDBEnvU(vUniverse[:1])
 	defer h.fs.Cleanup()
 	key := vUniverse[0]
@@ -19,8 +30,25 @@ func H_C10_Recovery() {
 	s := &vSession{h: h}
 
 	// the directory image recovery starts from
-	kind := vrt.Choose("image", 3)
+	if vrt.Symbolic() {
+		h.fs.WalkReverse = listing == 1
+	}
 	switch kind {
+	case 3:
+		// two WAL files: a rotation whose flush had not happened when the process was killed, and newer
+		// writes in the next file
+		vrt.Tag("image-two-wal-files")
+		h.enableGate()
+		s.put(key)
+		h.db.rwLock.Lock()
+		err := h.db.rotateWalAndFlushMemstore()
+		h.db.rwLock.Unlock()
+		vrt.Assert(err == nil, "recovery/rotation-for-the-image-no-error")
+		if vrt.Choose("second", 2) == 1 {
+			s.put(key)
+		} else {
+			s.del(key)
+		}
 	case 0:
 		// unflushed writes in the WAL next to an older table: recovery replays the WAL into a new table
 		vrt.Tag("image-wal-replay")
@@ -93,6 +121,9 @@ func H_C10_Recovery() {
 		depth2 := vrt.Symbolic() && vrt.Choose("depth2", 2) == 1
 		if !vrt.Symbolic() {
 			depth2 = k1%3 == 1 // natively every third first-level point is also nested
+		}
+		if kind == 3 && !vrt.Thorough() {
+			depth2 = false // quick tier: the two-WAL-files image with a single interruption
 		}
 		if !depth2 {
 			oerr := a2.open(vCrashOpts(false)...)
